@@ -220,6 +220,7 @@ def run_scenario(sc: dict):
                  md=view)
         futs = {}
         t_start = loop.time()
+        cancel_rids = {r: d for r, d in sc.get("cancel", [])}
 
         def on_done(rid, fut):
             if fut.cancelled():
@@ -251,6 +252,9 @@ def run_scenario(sc: dict):
                     continue
                 futs[rid] = fut
                 fut.add_done_callback(lambda f, rid=rid: on_done(rid, f))
+                if rid in cancel_rids:
+                    # the application gives up on this result (e.g. its wait_for timed out): cancels ITS future
+                    loop.call_later(cancel_rids[rid], lambda f=fut: f.done() or f.cancel())
                 if gap:
                     await asyncio.sleep(gap)
 
